@@ -53,7 +53,9 @@ class map(DaskStream):
 
     def update(self, x, who=None, metadata=None):
         client = default_client()
-        result = client.submit(self.func, x, *self.args, **self.kwargs)
+        # through apply(): the user's keyword arguments must reach func, not
+        # Client.submit (which has parameters of its own: key, priority, ...)
+        result = client.submit(apply, self.func, (x,) + tuple(self.args), self.kwargs)
         return self._emit(result, metadata=metadata)
 
 
@@ -77,7 +79,7 @@ class accumulate(DaskStream):
                 return self._emit(x, metadata=metadata)
         else:
             client = default_client()
-            result = client.submit(self.func, self.state, x, **self.kwargs)
+            result = client.submit(apply, self.func, (self.state, x), self.kwargs)
             if self.returns_state:
                 state = client.submit(getitem, result, 0)
                 result = client.submit(getitem, result, 1)
